@@ -797,3 +797,40 @@ func isLoopHeader(h *ssa.BasicBlock) bool {
 	}
 	return false
 }
+
+// EnteredOnlyWhen: control enters blk only along edges on which at least one
+// of the facts `when` must hold (facts of the predecessor plus the edge's own
+// fact, looking through an empty `a || b` trampoline). With implication-aware
+// matchers this is the complement-arm rule: "the skipping/negative arm is
+// taken only if ¬X", so a weakened or shifted boundary test that still implies
+// the positive-arm fact is reported on the negative arm.
+func (c *Ctx) EnteredOnlyWhen(blk *ssa.BasicBlock, label string, when ...FM) bool {
+	return c.EnteredOnlyWhenExcept(blk, label, nil, when...)
+}
+
+// EnteredOnlyWhenExcept is EnteredOnlyWhen with the predecessors for which
+// skip returns true left out (edges that belong to the positive arm).
+func (c *Ctx) EnteredOnlyWhenExcept(blk *ssa.BasicBlock, label string, skip func(*ssa.BasicBlock) bool, when ...FM) bool {
+	fn := blk.Parent()
+	c.inst(label + " <- " + c.siteStr(blk.Instrs[0]))
+	c.nontrivial(label + c.siteStr(blk.Instrs[0]))
+	ok := true
+	for _, p := range blk.Preds {
+		if skip != nil && skip(p) {
+			continue
+		}
+		for _, fs := range incomingFacts(p, blk) {
+			hit := false
+			for _, fm := range when {
+				if _, h := hasFact(fs, fm); h {
+					hit = true
+				}
+			}
+			if !hit {
+				ok = false
+				c.violate(p.Instrs[len(p.Instrs)-1], fn, label, label+": this arm is entered on an edge where none of the required conditions is known to hold; facts on the edge: "+factsStr(fs), nil)
+			}
+		}
+	}
+	return ok
+}
